@@ -217,9 +217,15 @@ def multi(ctx):
     from joserfc.jwk import KeySet
     rng = ctx.rng
     multi_cases = []
+    # always present: symmetric and asymmetric key management in one message, in both orders, each family of each side
+    FIXED_MIXES = [m for m in (["A128KW", "RSA-OAEP"], ["RSA-OAEP-256", "A256KW", "ECDH-ES+A128KW"], ["A128GCMKW", "ECDH-ES+A256KW"], ["ECDH-ES+A128KW", "A192KW"],
+                               ["RSA1_5", "A128GCMKW"], ["PBES2-HS256+A128KW", "RSA-OAEP", "A128KW"])
+                   if all(a in NON_DIRECT for a in m)]
     for _ in range(12 if ctx.tier == "quick" else 120):
         enc = rng.choice(list(R.ENCS))
         algs = rng.sample(NON_DIRECT, rng.randrange(1, 5))
+        if FIXED_MIXES:
+            algs = FIXED_MIXES.pop()
         pt = rng.choice(E.PLAINTEXTS)
         aad = rng.choice([None, b"aad"])
         obj = jwe.GeneralJSONEncryption({"enc": enc}, pt, rng.choice([None, {"jku": "https://x.example/"}]), aad)
@@ -260,6 +266,23 @@ def multi(ctx):
             ctx.count("multi-any-recipient", (enc, tuple(algs), i), True, "ok" if ok else "fail")
             if not ok:
                 ctx.report("in any-recipient mode the holder of one recipient key cannot decrypt", {"algs": algs, "i": i}, "multi:any")
+            # ... also when that holder hands in just its key (no set): the key is then offered to every recipient entry, and the
+            # entries whose algorithm cannot be used with a key of that TYPE at all (RFC 7518 section 4.1: RSA / oct / EC-OKP
+            # families) are passed over, not fatal.  (Entries of an algorithm that does admit the key's type but belong to
+            # somebody else's key - another curve, another secret - are left out: without a kid nothing says which entry is
+            # "the matching" one, and the outcome for those is not part of this property.)
+            fam = lambda a: "RSA" if a.startswith("RSA") else ("ECDH" if a.startswith("ECDH") else "oct")  # noqa: E731
+            if any(fam(a) == fam(algs[i]) for j, a in enumerate(algs) if j != i):
+                continue
+            try:
+                r = jwe.decrypt_json(copy.deepcopy(v), k, registry=jwe.JWERegistry(algorithms=E.ALL_NAMES, verify_all_recipients=False))
+                out1 = "ok" if r.plaintext == pt else "other plaintext"
+            except Exception as e:  # noqa: BLE001
+                out1 = err_name(e)
+            ctx.count("multi-any-recipient-single-key", (enc, tuple(algs), i), True, out1)
+            if out1 != "ok":
+                ctx.report(f"in any-recipient mode the holder of recipient key #{i} ({algs[i]}), given as a single key, cannot decrypt a JWE for {algs}: {out1}",
+                           {"algs": algs, "i": i, "enc": enc, "token": v, "key": k.as_dict(private=True)}, "multi:any-single-key")
     E.run_decrypt_cases(ctx, "multi-decrypt", multi_cases, check_c02=False, prop="C04")
 
 
